@@ -58,7 +58,7 @@ def snapshot(bindir):
     lockf = open(os.path.join(vlib.ROOT, "build.lock"), "a")
     fcntl.flock(lockf, fcntl.LOCK_EX)
     try:
-        for exe in ("csg_imc_solve", "drv_lsq"):
+        for exe in ("csg_imc_solve", "csg_fmatch", "drv_lsq"):
             shutil.copy2(os.path.join(bindir, exe), snap)
         for lib in glob.glob(os.path.join(os.path.dirname(bindir), "lib", "libvotca_*.so*")):
             shutil.copy2(lib, snap)
@@ -253,8 +253,182 @@ def con_text(rec):
 
 
 # ------------------------------------------------------------------------------------------------
+# csg_fmatch clauses (spec/lsq/Fmatch.tla): relations between outputs of the real code
+# ------------------------------------------------------------------------------------------------
+FM_NAME = "A-A"
+UNIT = 8.0            # lattice units per nm
+
+
+def fm_variant(rec):
+    return "constrained" if rec["con"] else "plain"
+
+
+def fm_generator_cmd(rec):
+    """the real CubicSpline evaluates the force function at every pair distance of the TLC record"""
+    rs = [repr((p[2] ** 0.5) / UNIT) for fr in rec["frames"] for p in fr["pairs"]]
+    gmax = rec["gmin"] + (rec["n"] - 1) * rec["gstep"]
+    return "spl %r %r %r %d %s %d %s" % (rec["gmin"] / UNIT, gmax / UNIT, rec["gstep"] / UNIT, rec["n"],
+                                         " ".join(num(v) for v in rec["y"]), len(rs), " ".join(rs))
+
+
+def fm_write_inputs(rec, d, gvals):
+    """reference forces F_i = sum_j G(r_ij) (p_i - p_j)/r_ij + noise_i ; lammps dump (positions k*1.25 Angstrom)"""
+    nb = rec["nb"]
+    gmax = rec["gmin"] + (rec["n"] - 1) * rec["gstep"]
+    with open(os.path.join(d, "topol.xml"), "w") as f:
+        f.write('<topology><molecules><molecule name="M" nmols="%d" nbeads="1"><bead name="A" type="A" mass="1" q="0"/>'
+                '</molecule></molecules></topology>\n' % nb)
+    with open(os.path.join(d, "settings.xml"), "w") as f:
+        f.write("<cg><fmatch><constrainedLS>%s</constrainedLS><frames_per_block>%d</frames_per_block></fmatch>"
+                "<non-bonded><name>%s</name><type1>A</type1><type2>A</type2><fmatch><min>%r</min><max>%r</max>"
+                "<step>%r</step><out_step>%r</out_step></fmatch></non-bonded></cg>\n" % (
+                    "true" if rec["con"] else "false", rec["b"], FM_NAME, rec["gmin"] / UNIT, gmax / UNIT,
+                    rec["gstep"] / UNIT, rec["gstep"] / UNIT))
+    k = 0
+    with open(os.path.join(d, "traj.dump"), "w") as f:
+        for fi, fr in enumerate(rec["frames"]):
+            F = [[float(c) for c in nz] for nz in fr["noise"]]
+            for (i, j, d2) in fr["pairs"]:
+                g = gvals[k]
+                k += 1
+                r = d2 ** 0.5
+                for a in range(3):
+                    e = (fr["pos"][i - 1][a] - fr["pos"][j - 1][a]) / r
+                    F[i - 1][a] += g * e
+                    F[j - 1][a] -= g * e
+            f.write("ITEM: TIMESTEP\n%d\nITEM: NUMBER OF ATOMS\n%d\nITEM: BOX BOUNDS pp pp pp\n0 80\n0 80\n0 80\n"
+                    "ITEM: ATOMS id type x y z fx fy fz\n" % (fi, nb))
+            for i, (q, ff) in enumerate(zip(fr["pos"], F)):
+                f.write("%d 1 %r %r %r %r %r %r\n" % (i + 1, q[0] * 1.25, q[1] * 1.25, q[2] * 1.25, ff[0], ff[1], ff[2]))
+
+
+def fm_execute(exe, env, d, rec, run, gvals):
+    shutil.rmtree(d, ignore_errors=True)
+    os.makedirs(d)
+    fm_write_inputs(rec, d, gvals)
+    cmd = [exe, "--top", "topol.xml", "--trj", "traj.dump", "--options", "settings.xml", "--no-map"]
+    if run["id"] != "full":
+        cmd += ["--first-frame", str(run["first"]), "--nframes", str(run["nframes"])]
+    e = dict(os.environ)
+    e.update(env)
+    try:
+        p = subprocess.run(cmd, cwd=d, stdout=subprocess.PIPE, stderr=subprocess.STDOUT, text=True, timeout=300, env=e)
+        rc, out = p.returncode, p.stdout
+    except subprocess.TimeoutExpired:
+        rc, out = -999, "TIMEOUT"
+    rows = None
+    path = os.path.join(d, FM_NAME + ".force")
+    if os.path.exists(path):
+        rows = [ln.split() for ln in open(path) if ln.strip() and not ln.startswith("#")]
+    shutil.rmtree(d, ignore_errors=True)
+    return cmd, rc, out, rows
+
+
+def fm_compare(ctx, rec, outs, conv):
+    """outs: {run id: (cmd, rc, out, rows)} -> [(key, text)]"""
+    var = fm_variant(rec)
+    bad = []
+    tabs = {}
+    for rid, (cmd, rc, out, rows) in outs.items():
+        if rc == -999:
+            raise vlib.InfraError("csg_fmatch timed out")
+        if "error while loading shared libraries" in out or "file too short" in out:
+            raise vlib.InfraError("csg_fmatch could not be loaded: " + out[-300:])
+        if rc != 0 or rows is None:
+            bad.append(("fmatch:run:exit:" + var, "csg_fmatch %s: exit status %s, %s" % (" ".join(cmd[1:]), rc, out[-300:])))
+            continue
+        try:
+            tab = [(float(r[0]), float(r[1])) for r in rows]
+        except (ValueError, IndexError):
+            bad.append(("fmatch:table:format", "%s.force of run %s is not a numeric table: %s" % (FM_NAME, rid, rows[:3])))
+            continue
+        if len(tab) != rec["n"] or any(not vlib.close(x, (rec["gmin"] + i * rec["gstep"]) / UNIT, 1e-9, 1e-12)
+                                       for i, (x, _) in enumerate(tab)):
+            bad.append(("fmatch:table:grid", "%s.force of run %s: grid %s, expected the %d knots from %r step %r" % (
+                FM_NAME, rid, [x for x, _ in tab], rec["n"], rec["gmin"] / UNIT, rec["gstep"] / UNIT)))
+            continue
+        tabs[rid] = [y for _, y in tab]
+    if bad:
+        return bad
+    # relation from the TLC record:  sum coef * T(run)[i] = 0
+    scale = max([1.0] + [abs(v) for t in tabs.values() for v in t if v == v])
+    for i in range(rec["n"]):
+        ctx.count()
+        tot = sum(cf * tabs[rid][i] for cf, rid in rec["rel"])
+        if not abs(tot) <= 1e-6 * scale * rec["K"]:
+            bad.append(("fmatch:block-independence:" + var,
+                        "grid point %d: %d * T(full) = %r but the single-block runs on the same frames give %s (sum %r): "
+                        "a block's result depends on the blocks before it" % (
+                            i + 1, rec["K"], rec["K"] * tabs["full"][i], [tabs[rid][i] for cf, rid in rec["rel"] if rid != "full"],
+                            sum(tabs[rid][i] for cf, rid in rec["rel"] if rid != "full"))))
+            break
+    if not rec["noisy"]:
+        ys = max(1.0, conv * max(abs(v) for v in rec["y"]))
+        for rid in sorted(tabs):
+            for i in range(rec["n"]):
+                ctx.count()
+                if not abs(tabs[rid][i] - conv * rec["y"][i]) <= 1e-6 * ys:
+                    bad.append(("fmatch:reproduction:%s:%s" % (var, "full" if rid == "full" else "block"),
+                                "run %s, knot %d: fitted force %r, generating spline has %r (= %r * %d)" % (
+                                    rid, i + 1, tabs[rid][i], conv * rec["y"][i], conv, rec["y"][i])))
+                    break
+    return bad
+
+
+def fm_text(rec):
+    return "[%d beads, %d frames, frames_per_block=%d (%d blocks), constrainedLS=%s, grid %r..+%d*%r, knot values %s%s, seed %d]" % (
+        rec["nb"], len(rec["frames"]), rec["b"], rec["K"], "true" if rec["con"] else "false", rec["gmin"] / UNIT,
+        rec["n"] - 1, rec["gstep"] / UNIT, rec["y"], " + noise" if rec["noisy"] else "", rec["s"])
+
+
+def run_fmatch(ctx, fms, exe_fm, exe_drv, env, base, workers):
+    items = [("conv", ["fconv"])] + [(i, [fm_generator_cmd(r)]) for i, r in enumerate(fms)]
+    results, crashes = vlib.run_items(exe_drv, items, env=env)
+    if crashes:
+        raise vlib.InfraError("force-field generator (drv_lsq spl) failed: %s" % list(crashes.values())[:1])
+    conv = float(results["conv"][0][0].split()[1])
+    gvals = {}
+    for i, r in enumerate(fms):
+        v = [ln for ln in results[i][0] if ln.startswith("v")]
+        if not v:
+            raise vlib.InfraError("force-field generator gave no values: %s" % results[i][0])
+        gvals[i] = [float(t) for t in v[0].split()[1:]]
+    jobs = [(i, run) for i, r in enumerate(fms) for run in r["runs"]]
+
+    def work(job):
+        i, run = job
+        return fm_execute(exe_fm, env, os.path.join(base, "f%06d-%s" % (i, run["id"])), fms[i], run, gvals[i])
+
+    with ThreadPoolExecutor(max_workers=workers) as ex:
+        res = list(ex.map(work, jobs))
+    outs = {}
+    for (i, run), o in zip(jobs, res):
+        outs.setdefault(i, {})[run["id"]] = o
+    classes = {}
+    for i, rec in enumerate(fms):
+        ctx.traces += len(rec["runs"])
+        cl = "%s,K=%d,b=%d%s" % (fm_variant(rec), rec["K"], rec["b"], ",noisy" if rec["noisy"] else "")
+        classes[cl] = classes.get(cl, 0) + 1
+        if rec["K"] >= 2:
+            ctx.nontriv(("fm", rec["s"]))
+        bad = fm_compare(ctx, rec, outs[i], conv)
+        if bad:
+            # re-run once before reporting (DESIGN 7.7)
+            again = {run["id"]: fm_execute(exe_fm, env, os.path.join(base, "g%06d-%s" % (i, run["id"])), rec, run, gvals[i])
+                     for run in rec["runs"]}
+            bad2 = {k for k, _ in fm_compare(ctx, rec, again, conv)}
+            for key, text in bad:
+                if key in bad2:
+                    ctx.violation(key, text + " " + fm_text(rec), rec)
+        if i in (0, len(fms) - 1):
+            ctx.sample({"csg_fmatch": fm_text(rec), "runs": [r_["id"] for r_ in rec["runs"]], "relation": rec["rel"]})
+    ctx.extra["fmatch_instances_by_class"] = dict(sorted(classes.items()))
+    ctx.extra["fmatch_force_conversion_of_dump_reader"] = conv
+
+
+# ------------------------------------------------------------------------------------------------
 def run(ctx):
-    bindir = vlib.ensure_build(["drv_lsq", "csg_imc_solve"])
+    bindir = vlib.ensure_build(["drv_lsq", "csg_imc_solve", "csg_fmatch"])
     snap, env = snapshot(bindir)
     exe_imc = os.path.join(snap, "csg_imc_solve")
     exe_drv = os.path.join(snap, "drv_lsq")
@@ -274,15 +448,15 @@ def run(ctx):
         "csg_fmatch is not covered (MANIFEST note)"]
     base = tempfile.mkdtemp(prefix="c06-run-", dir=vlib.SCRATCH)
     try:
-        _run(ctx, quick, workers, exe_imc, exe_drv, env, base)
+        _run(ctx, quick, workers, exe_imc, exe_drv, env, base, os.path.join(snap, "csg_fmatch"))
     finally:
         shutil.rmtree(base, ignore_errors=True)
         shutil.rmtree(snap, ignore_errors=True)
     ctx.exhaustive = False
 
 
-def _tlc(ctx, cfg, what, env, timeout=2400, expect=None, workers=4):
-    res = vlib.tlc("lsq", "MCLsq", cfg=cfg + ".cfg", timeout=timeout, env=env, workers=workers)
+def _tlc(ctx, cfg, what, env, timeout=2400, expect=None, workers=4, module="MCLsq"):
+    res = vlib.tlc("lsq", module, cfg=cfg + ".cfg", timeout=timeout, env=env, workers=workers)
     label = "%s %s" % (cfg, " ".join("%s=%s" % (k[4:].lower(), v) for k, v in sorted(env.items())))
     if expect:
         if res.ok or expect not in (res.violation or ""):
@@ -294,8 +468,8 @@ def _tlc(ctx, cfg, what, env, timeout=2400, expect=None, workers=4):
     return res.records
 
 
-def _run(ctx, quick, workers, exe_imc, exe_drv, env, base):
-    tik, con = [], []
+def _run(ctx, quick, workers, exe_imc, exe_drv, env, base, exe_fm):
+    tik, con, fms = [], [], []
     replay_key = None
     if getattr(ctx, "replay", None):
         art = json.load(open(ctx.replay))
@@ -303,7 +477,7 @@ def _run(ctx, quick, workers, exe_imc, exe_drv, env, base):
         if str(art.get("key", "")).startswith(("imc_solve:solution", "imc_solve:split:wrong-rows")):
             replay_key = art["key"]     # one system alone cannot tell solver from splitting: keep the recorded class
         rec.pop("cmd", None)
-        (tik if rec["k"] in ("tik", "xt") else con).append(rec)
+        (fms if rec["k"] == "fm" else tik if rec["k"] in ("tik", "xt") else con).append(rec)
     else:
         wide = {"C06_WIDE": 0 if quick else 1}
         # ---- negative controls: the stated laws refute wrong models -------------------------------
@@ -345,6 +519,15 @@ def _run(ctx, quick, workers, exe_imc, exe_drv, env, base):
         if small_t == 0 or small_c == 0:
             raise vlib.InfraError("minimiser lemmas were vacuous (%d, %d)" % (small_t, small_c))
         ctx.extra["minimiser_lemma_systems"] = {"tikhonov": small_t, "constrained": small_c}
+        # ---- csg_fmatch instances (relational clauses) -------------------------------------------------
+        nfm = 80 if quick else 3200
+        for s0 in range(seed0, seed0 + nfm, 800):
+            fms += _tlc(ctx, "MCFmatch", "Fmatch: block windows, relation coefficients, pair lists, chain construction, guard",
+                        {"C06_SEED0": s0, "C06_NSEEDS": min(800, seed0 + nfm - s0)}, module="MCFmatch")
+        fms.sort(key=lambda r: r["s"])
+        ctx.extra["fmatch_draws_rejected_by_guard"] = nfm - len(fms)
+        if len(fms) < nfm // 5 or not any(r["K"] >= 2 and not r["con"] for r in fms) or not any(r["K"] >= 2 and r["con"] for r in fms):
+            raise vlib.InfraError("too few well-posed csg_fmatch instances: %d of %d" % (len(fms), nfm))
 
     # ---- (i) csg_imc_solve --------------------------------------------------------------------------
     def work(a):
@@ -366,7 +549,7 @@ def _run(ctx, quick, workers, exe_imc, exe_drv, env, base):
             cmd2, rc2, out2, tables2 = run_tik(exe_imc, env, base, 10000000 + i, rec)
             bad2 = {k for k, _ in compare_tik(ctx, rec, rc2, out2, tables2)}
             confirmed += [(key, text, rec, cmd) for key, text in bad if key in bad2]
-        if i % max(1, len(tik) // 3) == 0:
+        if i in (0, len(tik) - 1):
             ctx.sample({"csg_imc_solve": " ".join(cmd[1:]), "A": rec["A"], "b": rec["b"], "r": "%d/%d" % (rec["rn"], rec["rd"]),
                         "index": ["%s %s" % (tname(rec, e["name"]), render_range(e["blocks"])) for e in rec["idx"]],
                         "x": "%s/%d" % (rec["num"], rec["den"])})
@@ -396,6 +579,10 @@ def _run(ctx, quick, workers, exe_imc, exe_drv, env, base):
             continue
         for key, text in compare_con(ctx, rec, results[i][0]):
             ctx.violation(key, text + " " + con_text(rec), rec)
-        if i % max(1, len(con) // 3) == 0:
+        if i in (0, len(con) - 1):
             ctx.sample({"linalg_constrained_qrsolve": con_text(rec), "x": "%s/%d" % (rec["num"], rec["den"])})
     ctx.extra["constrained_systems_by_shape"] = shapes
+
+    # ---- (iii) csg_fmatch: block independence and reproduction of representable force functions ------------
+    if fms:
+        run_fmatch(ctx, fms, exe_fm, exe_drv, env, base, workers)
